@@ -166,6 +166,9 @@ def gen_prog(rng, name="p", depth=0, max_stmts=8, fid_base=0, p_flag=0.2, p_sub=
             if rng.random() < 0.25:
                 kwargs["kw%d" % rng.randrange(2)] = gen_expr(rng, i, vinfo, np_)
                 k2 = random.Random(rng.getrandbits(30))
+                if k2.random() < 0.2:
+                    # a user keyword that merely STARTS with the reserved prefix is an ordinary argument
+                    kwargs = {"twz_gain": list(kwargs.values())[0]}
                 if i >= 2 and k2.random() < 0.5:
                     # two keyword arguments fed by two different earlier results
                     a_, b_ = k2.sample(range(i), 2)
